@@ -682,7 +682,7 @@ pub fn run(ctx: &Ctx) {
         );
     }
     ctx.run_random(
-        Part::new("tls", RULE_TLS, ctx.tier.scale(12_000, 8)).floors(&[("handshake-ok", 0.05), ("handshake-rejected", 0.4), ("ip-literal-host", 0.1), ("untrusted-issuer", 0.1), ("invalid-name", 0.1)]).shrink_iters(500),
+        Part::new("tls", RULE_TLS, ctx.tier.scale(12_000, 8)).floors(&[("handshake-ok", 0.03), ("handshake-rejected", 0.4), ("ip-literal-host", 0.1), ("untrusted-issuer", 0.1), ("invalid-name", 0.1)]).shrink_iters(500),
         tls_strategy,
         check_tls,
     );
